@@ -213,6 +213,15 @@ class Histories(BFSFamily):
         f = B.CBloomFilter.deserialize(bytes([nb]) + bytes(data0) + struct.pack('<IIB', nh, tw, 1))
         model = R.set_bits(data0)
         inserted = []
+
+        def wire_of(bits):
+            d = bytearray(nb)
+            for i in bits:
+                d[i >> 3] |= 1 << (i & 7)
+            return bytes([nb]) + bytes(d) + struct.pack('<IIB', nh, tw, 1)
+        # the same object is serialised in every state it passes through (also before the first insertion)
+        if f.serialize() != wire_of(model):
+            raise Viol('serialisation of a filter that just arrived from the wire', wire_of(model), f.serialize())
         for ev in history[1:]:
             if ev[0] == 'ins':
                 le, raw = lib_elem(ELEMS[ev[1]])
@@ -238,6 +247,9 @@ class Histories(BFSFamily):
             for i in inserted:
                 if not f.contains(lib_elem(ELEMS[i])[0]):
                     raise Viol('inserted element %d reported absent (false negative)' % i, True, False)
+            enc = f.serialize()
+            if enc != wire_of(model):
+                raise Viol('serialisation after %r is not the wire form of the union of the schedule bits (same object serialised in every earlier state)' % (list(history),), wire_of(model), enc)
         for i, e in enumerate(ELEMS):
             le, raw = lib_elem(e)
             wantc = R.bits_for(raw, nb, nh, tw) <= model
